@@ -120,7 +120,7 @@ func genC16One(t *rapid.T) c16Case {
 				for i := 0; i < n; i++ {
 					c.Faults = append(c.Faults, world.Fault{
 						Call:  rapid.IntRange(0, 3).Draw(t, "mixedcall"),
-						Kind:  rapid.SampledFrom([]string{"before", "header", "overloaded", "drop-mid", "drop-mid-canceled"}).Draw(t, "mixedkind"),
+						Kind:  rapid.SampledFrom([]string{"before", "header", "overloaded", "drop-mid", "drop-mid-canceled", "drop-mid-eof"}).Draw(t, "mixedkind"),
 						After: rapid.IntRange(0, 2).Draw(t, "mixedafter"),
 					})
 				}
@@ -133,7 +133,7 @@ transient:
 	for i := 0; i < n; i++ {
 		c.Faults = append(c.Faults, world.Fault{
 			Call:  rapid.IntRange(0, 6).Draw(t, "faultcall"),
-			Kind:  rapid.SampledFrom([]string{"before", "header", "overloaded", "drop-mid", "drop-mid", "drop-mid-canceled", "drop-after-done", "drop-after-done"}).Draw(t, "faultkind"),
+			Kind:  rapid.SampledFrom([]string{"before", "header", "overloaded", "drop-mid", "drop-mid-eof", "drop-mid-canceled", "drop-after-done", "drop-after-done"}).Draw(t, "faultkind"),
 			After: rapid.IntRange(0, 3).Draw(t, "faultafter"),
 		})
 	}
